@@ -182,6 +182,11 @@ impl Analysis {
         self.definitions.values_mut().for_each(|d| d.clear_usages());
     }
 
+    /// Forgets a definition: its symbol was taken out of the symbol table (the table hands out its index again)
+    pub fn remove_definition(&mut self, ty: &DefinitionType) {
+        self.definitions.remove(ty);
+    }
+
     pub fn find<P: Into<PathBuf>>(
         &self,
         path: P,
